@@ -1682,6 +1682,26 @@ func (c *Ctx) formula(v ssa.Value) *Formula {
 				} else if k, ok := x.X.(*ssa.Const); ok && k.IsNil() {
 					other = x.Y
 				}
+				// the scanned group's state is never nil (reviewed: the controller's map holds an entry
+				// for every configured group, see the <group-step>/lookup entry of the dereference
+				// table): a defensive nil test of a parameter or scaleOpts field of that type is
+				// decided — a lookup result, a merge or a call result keeps its atom
+				if other != nil && c.p.nonNilPtr != nil && types.Identical(other.Type(), c.p.nonNilPtr) {
+					decided := false
+					switch y := other.(type) {
+					case *ssa.Parameter, *ssa.Field:
+						decided = true
+					case *ssa.UnOp:
+						_, isFA := y.X.(*ssa.FieldAddr)
+						decided = y.Op == token.MUL && isFA
+					}
+					if decided {
+						if x.Op == token.NEQ {
+							return FTrue
+						}
+						return FFalse
+					}
+				}
 				// only for error values: pointer-typed optional results keep their atoms, which the
 				// rules name explicitly (taint time, instance, …)
 				if other != nil && isErrorType(other.Type()) {
